@@ -34,6 +34,9 @@ pub enum Ans {
     /// an empty NODES answer
     Empty,
     Fail,
+    /// no outcome for now: the request stays outstanding and is answered (empty NODES) while the NEXT
+    /// lookup of the case is running - a late answer to a request of a lookup that is over
+    Hold,
 }
 
 #[derive(Clone, Debug, PartialEq, Eq, Hash, Serialize, Deserialize)]
@@ -42,13 +45,20 @@ pub struct LookupCase {
     pub target: u16,
     /// pool keys of the peers known (add_enr) when the lookup starts
     pub known: Vec<u16>,
-    /// how the i-th FINDNODE of the lookup is answered (cyclic)
+    /// how the i-th FINDNODE of the case is answered (cyclic)
     pub script: Vec<Ans>,
     pub predicate: bool,
+    /// number of results asked of a predicate lookup (0 = 16)
+    #[serde(default)]
+    pub num: u8,
+    /// a second lookup on the same service after the first one is over (its target)
+    #[serde(default)]
+    pub second: Option<u16>,
 }
 
 const LPOOL: u32 = 240;
 const LBASE: u32 = 1000;
+const PARALLELISM: usize = 3;
 
 fn lrec(i: u32) -> discv5::Enr {
     keys::padded_record(LBASE + i % LPOOL, 1, 100)
@@ -58,36 +68,53 @@ fn odd_port(e: &discv5::Enr) -> bool {
     e.udp4().map(|p| p % 2 == 1).unwrap_or(false)
 }
 
-async fn run_lookup(c: &LookupCase, rep: &mut CaseReport) -> Option<(String, String)> {
-    reset_globals();
-    let mut q = Svc::new(SvcConfig { key_idx: 0, ..Default::default() }).await;
-    let target = lrec(c.target as u32 + 7).node_id().raw();
-    let mut learned: HashMap<ids::Id, discv5::Enr> = HashMap::new();
-    for k in c.known.iter().take(8) {
-        let e = lrec(*k as u32);
-        if e.node_id().raw() == target {
-            continue;
-        }
-        if q.d.add_enr(e.clone()).is_ok() {
-            learned.insert(e.node_id().raw(), e);
-        }
-    }
+struct Held {
+    na: NodeAddress,
+    id: RequestId,
+}
+
+struct Driven {
+    finished: bool,
+    results: usize,
+    closer_learnt_later: bool,
+    held_any: bool,
+}
+
+/// Runs one lookup to its end (or until nothing moves any more), answering its FINDNODEs per script.
+#[allow(clippy::too_many_arguments)]
+async fn drive(
+    q: &mut Svc,
+    c: &LookupCase,
+    target: ids::Id,
+    n_req: &mut usize,
+    held: &mut Vec<Held>,
+    mut late: Vec<Held>,
+    which: &str,
+) -> Result<Driven, (String, String)> {
+    let k = if c.predicate && c.num > 0 { c.num.min(16) as usize } else { 16 };
+    // candidates the lookup starts from: the first k of the table entries in distance order
+    let mut table: Vec<discv5::Enr> = q.d.table_entries_enr();
+    table.sort_by_key(|e| ids::xor(&e.node_id().raw(), &target));
+    let mut learned: HashMap<ids::Id, discv5::Enr> = table.iter().take(k).map(|e| (e.node_id().raw(), e.clone())).collect();
     if learned.is_empty() {
-        return None;
+        return Ok(Driven { finished: true, results: 0, closer_learnt_later: false, held_any: false });
     }
     q.take_outbox();
     let handle = if c.predicate {
-        tokio::spawn(q.d.find_node_predicate(ids::node_id(&target), Box::new(odd_port), 16))
+        tokio::spawn(q.d.find_node_predicate(ids::node_id(&target), Box::new(odd_port), k))
     } else {
         tokio::spawn(q.d.find_node(ids::node_id(&target)))
     };
     q.settle().await;
     let mut contacted: HashSet<ids::Id> = HashSet::new();
     let mut answered: HashSet<ids::Id> = HashSet::new();
-    let mut n_req = 0usize;
+    let mut in_flight: usize = 0;
     let mut idle = 0;
     let mut closer_learnt_later = false;
-    while idle < 6 && n_req < 400 {
+    let mut held_here = false;
+    let mut rounds = 0;
+    while idle < 6 && rounds < 400 {
+        rounds += 1;
         let out = q.take_outbox();
         let reqs: Vec<(NodeContact, RequestId, Vec<u64>)> = out
             .into_iter()
@@ -108,13 +135,26 @@ async fn run_lookup(c: &LookupCase, rep: &mut CaseReport) -> Option<(String, Str
             continue;
         }
         idle = 0;
+        in_flight += reqs.len();
+        // while iterating a lookup keeps `parallelism` requests in flight, once stalled up to k
+        let bound = PARALLELISM.max(k);
+        if in_flight > bound {
+            return Err((
+                "lookup/parallelism-exceeded".into(),
+                format!("the {which} lookup has {in_flight} FINDNODE requests in flight; parallelism {PARALLELISM}, k = {k}"),
+            ));
+        }
+        // answers to requests of the PREVIOUS lookup arrive now, while this one is waiting
+        for h in late.drain(..) {
+            q.inject(HandlerOut::Response(h.na, Box::new(Response { id: h.id, body: ResponseBody::Nodes { total: 1, nodes: vec![] } }))).await;
+        }
         for (contact, id, ds) in reqs {
             let rid = contact.node_id().raw();
             if !contacted.insert(rid) {
-                return Some(("lookup/peer-contacted-twice".into(), format!("the lookup sent a second FINDNODE to {}", contact.node_id())));
+                return Err(("lookup/peer-contacted-twice".into(), format!("the {which} lookup sent a second FINDNODE to {}", contact.node_id())));
             }
-            let ans = &c.script[n_req % c.script.len().max(1)];
-            n_req += 1;
+            let ans = &c.script[*n_req % c.script.len().max(1)];
+            *n_req += 1;
             let na = NodeAddress::new(contact.socket_addr(), contact.node_id());
             let matching: Vec<discv5::Enr> = (0..LPOOL)
                 .map(lrec)
@@ -139,6 +179,12 @@ async fn run_lookup(c: &LookupCase, rep: &mut CaseReport) -> Option<(String, Str
             let mut packets: Vec<Vec<discv5::Enr>> = match ans {
                 Ans::Fail => {
                     q.inject(HandlerOut::RequestFailed(id.clone(), RequestError::Timeout)).await;
+                    in_flight -= 1;
+                    continue;
+                }
+                Ans::Hold => {
+                    held.push(Held { na, id });
+                    held_here = true;
                     continue;
                 }
                 Ans::Empty => vec![vec![]],
@@ -160,7 +206,6 @@ async fn run_lookup(c: &LookupCase, rep: &mut CaseReport) -> Option<(String, Str
             for nodes in packets.drain(..) {
                 for e in &nodes {
                     let eid = e.node_id().raw();
-                    // a record closer to the target than something already learnt arrives later
                     if !learned.contains_key(&eid) && learned.keys().any(|l| ids::xor(l, &target) > ids::xor(&eid, &target)) {
                         closer_learnt_later = true;
                     }
@@ -168,6 +213,7 @@ async fn run_lookup(c: &LookupCase, rep: &mut CaseReport) -> Option<(String, Str
                 }
                 q.inject(HandlerOut::Response(na.clone(), Box::new(Response { id: id.clone(), body: ResponseBody::Nodes { total, nodes } }))).await;
             }
+            in_flight -= 1;
             answered.insert(rid);
         }
     }
@@ -175,66 +221,113 @@ async fn run_lookup(c: &LookupCase, rep: &mut CaseReport) -> Option<(String, Str
         q.settle().await;
     }
     if !handle.is_finished() {
-        return Some(("lookup/not-finished-although-every-request-got-an-outcome".into(), format!("{n_req} FINDNODEs were answered or failed, nothing is outstanding, and the lookup future is still pending")));
+        if held_here {
+            // requests without an outcome: the lookup may legitimately still be waiting for them
+            handle.abort();
+            return Ok(Driven { finished: false, results: 0, closer_learnt_later, held_any: true });
+        }
+        return Err(("lookup/not-finished-although-every-request-got-an-outcome".into(), format!("every FINDNODE of the {which} lookup was answered or failed, nothing is outstanding, and the lookup future is still pending")));
     }
     let res = match handle.await {
         Ok(Ok(v)) => v,
-        Ok(Err(e)) => return Some(("lookup/error".into(), format!("find_node returned {e:?}"))),
-        Err(e) => return Some((format!("panic-in-task/{}", e), "the lookup task panicked".into())),
+        Ok(Err(e)) => return Err(("lookup/error".into(), format!("find_node returned {e:?}"))),
+        Err(e) => return Err((format!("panic-in-task/{e}"), "the lookup task panicked".into())),
     };
     if let Some(p) = crate::runner::take_panic() {
-        return Some((format!("panic-in-task/{}", p.split(':').take(2).collect::<Vec<_>>().join(":")), p));
+        return Err((format!("panic-in-task/{}", p.split(':').take(2).collect::<Vec<_>>().join(":")), p));
     }
     // ---- the result as the caller sees it
     let ids_out: Vec<ids::Id> = res.iter().map(|e| e.node_id().raw()).collect();
-    if ids_out.len() > 16 {
-        return Some(("lookup/too-many-results".into(), format!("{} nodes returned, k = 16", ids_out.len())));
+    if ids_out.len() > k {
+        return Err(("lookup/too-many-results".into(), format!("{} nodes returned by the {which} lookup, k = {k}", ids_out.len())));
     }
     let set: HashSet<ids::Id> = ids_out.iter().copied().collect();
     if set.len() != ids_out.len() {
-        return Some(("lookup/duplicate-in-result".into(), "a node id occurs twice in the lookup result".into()));
+        return Err(("lookup/duplicate-in-result".into(), "a node id occurs twice in the lookup result".into()));
     }
     for w in ids_out.windows(2) {
         if ids::xor(&w[0], &target) >= ids::xor(&w[1], &target) {
-            return Some((
+            return Err((
                 "lookup/result-not-in-increasing-distance".into(),
-                format!("the result of the lookup lists {} before {} although the latter is closer to the target ({} results)", ids::hex_id(&w[0]), ids::hex_id(&w[1]), ids_out.len()),
+                format!("the result of the {which} lookup lists {} before {} although the latter is closer to the target ({} results)", ids::hex_id(&w[0]), ids::hex_id(&w[1]), ids_out.len()),
             ));
         }
     }
     for i in &ids_out {
         if !answered.contains(i) {
-            return Some(("lookup/result-node-never-answered".into(), format!("{} is in the result but never answered a FINDNODE of this lookup", ids::hex_id(i))));
+            return Err(("lookup/result-node-never-answered".into(), format!("{} is in the result of the {which} lookup but never answered a FINDNODE of that lookup", ids::hex_id(i))));
         }
     }
     if c.predicate {
         for e in &res {
             if !odd_port(e) {
-                return Some(("lookup/result-fails-predicate".into(), format!("{} is in the result of a predicate lookup but its record does not satisfy the predicate", e.node_id())));
+                return Err(("lookup/result-fails-predicate".into(), format!("{} is in the result of a predicate lookup but its record does not satisfy the predicate", e.node_id())));
             }
         }
     }
-    if ids_out.len() < 16 {
+    if ids_out.len() < k && !held_here {
         for l in learned.keys() {
             if !contacted.contains(l) {
-                return Some((
+                return Err((
                     "lookup/incomplete-without-contacting-all".into(),
-                    format!("{} nodes returned (k = 16), no timeout, and candidate {} was never contacted", ids_out.len(), ids::hex_id(l)),
+                    format!("{} nodes returned by the {which} lookup (k = {k}), no timeout, and candidate {} was never contacted", ids_out.len(), ids::hex_id(l)),
                 ));
             }
         }
     }
-    q.d.shutdown();
+    Ok(Driven { finished: true, results: ids_out.len(), closer_learnt_later, held_any: held_here })
+}
+
+async fn run_lookup(c: &LookupCase, rep: &mut CaseReport) -> Option<(String, String)> {
+    reset_globals();
+    let mut q = Svc::new(SvcConfig { key_idx: 0, ..Default::default() }).await;
+    let target = lrec(c.target as u32 + 7).node_id().raw();
+    for k in c.known.iter().take(10) {
+        let e = lrec(*k as u32);
+        if e.node_id().raw() != target {
+            let _ = q.d.add_enr(e);
+        }
+    }
+    let mut n_req = 0usize;
+    let mut held: Vec<Held> = Vec::new();
+    let first = match drive(&mut q, c, target, &mut n_req, &mut held, vec![], "first").await {
+        Ok(d) => d,
+        Err(v) => return Some(v),
+    };
     rep.class(if c.predicate { "lookup-through-the-service/predicate" } else { "lookup-through-the-service" });
-    rep.count("lookup_findnodes", n_req as u64);
-    rep.count("lookup_results", ids_out.len() as u64);
-    if ids_out.len() >= 2 && closer_learnt_later {
+    if c.predicate && c.num > 0 && (c.num as usize) < q.d.table_entries_id().len() {
+        rep.class("lookup/more-table-entries-than-results-asked-for");
+    }
+    rep.count("lookup_results", first.results as u64);
+    if first.results >= 2 && first.closer_learnt_later {
         rep.class("lookup/closer-node-learnt-after-a-farther-one");
         rep.nontrivial = true;
     }
-    if ids_out.len() == 16 {
+    if first.results == 16 {
         rep.class("lookup/k-results");
     }
+    if let Some(t2) = c.second {
+        if first.finished {
+            let target2 = lrec(t2 as u32 + 3).node_id().raw();
+            let late: Vec<Held> = std::mem::take(&mut held);
+            let had_late = !late.is_empty();
+            match drive(&mut q, c, target2, &mut n_req, &mut held, late, "second").await {
+                Ok(d) => {
+                    rep.class("lookup/second-lookup-on-the-same-service");
+                    if had_late {
+                        rep.class("lookup/late-answers-of-the-first-lookup-arrive-during-the-second");
+                        rep.nontrivial = true;
+                    }
+                    rep.count("lookup_results", d.results as u64);
+                }
+                Err(v) => return Some(v),
+            }
+        } else if first.held_any {
+            rep.class("lookup/first-lookup-still-waiting-for-held-requests");
+        }
+    }
+    rep.count("lookup_findnodes", n_req as u64);
+    q.d.shutdown();
     None
 }
 
@@ -245,9 +338,17 @@ fn lookup_strategy() -> BoxedStrategy<LookupCase> {
         2 => picks().prop_map(|picks| Ans::NodesTwoPackets { picks }),
         1 => Just(Ans::Empty),
         2 => Just(Ans::Fail),
+        2 => Just(Ans::Hold),
     ];
-    (any::<u16>(), proptest::collection::vec(any::<u16>(), 1..6), proptest::collection::vec(ans, 1..12), prop_oneof![3 => Just(false), 1 => Just(true)])
-        .prop_map(|(target, known, script, predicate)| LookupCase { target, known, script, predicate })
+    (
+        any::<u16>(),
+        proptest::collection::vec(any::<u16>(), 1..10),
+        proptest::collection::vec(ans, 1..12),
+        prop_oneof![1 => Just(false), 1 => Just(true)],
+        prop_oneof![1 => Just(0u8), 3 => 1u8..5],
+        proptest::option::weighted(0.5, any::<u16>()),
+    )
+        .prop_map(|(target, known, script, predicate, num, second)| LookupCase { target, known, script, predicate, num, second })
         .boxed()
 }
 
@@ -260,7 +361,7 @@ impl Property for C10 {
     fn strategy(tier: Tier) -> BoxedStrategy<Case> {
         prop_oneof![
             40 => qcase_strategy(tier.pick(80usize, 160usize)).prop_map(Case::Machine),
-            1 => lookup_strategy().prop_map(Case::Lookup),
+            3 => lookup_strategy().prop_map(Case::Lookup),
         ]
         .boxed()
     }
@@ -294,7 +395,7 @@ impl Property for C10 {
         rep
     }
     fn rule() -> String {
-        "the C09 machine histories (real FindNodeQuery / PredicateQuery, explicit clock, drain at the end); at the end into_result() is checked: R1 <= num_results ids, pairwise distinct, strictly increasing XOR distance (harness arithmetic); R2 every id was handed out by next() and a success was delivered for it while it was outstanding and before the finish; R3 (predicate variant) every id was reported (initial list or accepted success) with a value satisfying the predicate; R4 if fewer than num_results ids are returned every candidate (first num_results initial ids + ids inside accepted successes) was contacted. One case in 41 is a whole lookup through the public API (Discv5::find_node / find_node_predicate on a real service behind a scripted handler): 1..5 known peers, a pool of 240 signed records, every FINDNODE the lookup emits is answered per script with 0..4 records at the requested distances (sorted towards the target, farthest first, split over two packets, empty) or failed; the Vec<Enr> the caller gets back is checked for <= 16 distinct nodes in strictly increasing distance, every node having answered, predicate satisfied, and completeness when short. Non-trivial = result shorter than num_results with >=1 failure and >=1 result, or exactly num_results results out of more successes; (lookup) >= 2 results and a node closer to the target was learnt after a farther one.".into()
+        "the C09 machine histories (real FindNodeQuery / PredicateQuery, explicit clock, drain at the end); at the end into_result() is checked: R1 <= num_results ids, pairwise distinct, strictly increasing XOR distance (harness arithmetic); R2 every id was handed out by next() and a success was delivered for it while it was outstanding and before the finish; R3 (predicate variant) every id was reported (initial list or accepted success) with a value satisfying the predicate; R4 if fewer than num_results ids are returned every candidate (first num_results initial ids + ids inside accepted successes) was contacted. One case in 14 is a whole lookup through the public API (Discv5::find_node / find_node_predicate on a real service behind a scripted handler): 1..5 known peers, a pool of 240 signed records, every FINDNODE the lookup emits is answered per script with 0..4 records at the requested distances (sorted towards the target, farthest first, split over two packets, empty) or failed; requests may also be left without an outcome for the time being; the Vec<Enr> the caller gets back is checked for <= k distinct nodes in strictly increasing distance, every node having answered, predicate satisfied, and completeness when short (predicate lookups ask for 1..4 or 16 results, so the table may hold more entries than the lookup starts from); at no time more than max(parallelism = 3, k) FINDNODEs of a lookup are in flight; in half of the cases a second lookup runs on the same service afterwards, and the requests of the first lookup that were left open are answered while the second one is waiting. Non-trivial = result shorter than num_results with >=1 failure and >=1 result, or exactly num_results results out of more successes; (lookup) >= 2 results and a node closer to the target was learnt after a farther one.".into()
     }
     fn assumptions() -> Vec<String> {
         vec![
